@@ -201,6 +201,55 @@ pub fn run(ctx: &Ctx) -> Outcome {
     if out.failure.is_some() {
         return out;
     }
+    // year-edge corner sweep: a rule day at the very beginning / end of the year combined with the most extreme times and offsets
+    // (the start / end instant then lies up to 9 days into the neighbouring year), the other day in mid-year; both orientations
+    {
+        let mut edge_days: Vec<MDay> = vec![];
+        for n in [1u16, 2, 3, 363, 364, 365] {
+            edge_days.push(MDay::J1(n));
+        }
+        for n in [0u16, 1, 2, 363, 364, 365] {
+            edge_days.push(MDay::J0(n));
+        }
+        for d in [0u8, 3, 6] {
+            edge_days.push(MDay::M(1, 1, d));
+            edge_days.push(MDay::M(12, 5, d));
+        }
+        let times = [-604_799i32, -601_200, -86_400, 0, 86_400, 601_200, 604_799];
+        let offs = [-89_999i32, -88_200, 0, 91_800, 93_599];
+        let edr = &edge_days;
+        let rs = par_shards(edge_days.len() as u64, |shard, st| {
+            let day = edr[shard as usize];
+            for &t in &times {
+                for &o in &offs {
+                    for as_start in [true, false] {
+                        for &other_off in &[o, 0, (o as i64 + 3600).clamp(-89_999, 93_599) as i32] {
+                            let mid = MDay::J1(180);
+                            let (std_off, dst_off) = if as_start { (o, other_off) } else { (other_off, o) };
+                            let rule = if as_start {
+                                MRule { std: MLtt::new(std_off, false, Some("STD")), dst: MLtt::new(dst_off, true, Some("DST")), start: day, start_time: t, end: mid, end_time: 7200 }
+                            } else {
+                                MRule { std: MLtt::new(std_off, false, Some("STD")), dst: MLtt::new(dst_off, true, Some("DST")), start: mid, start_time: 7200, end: day, end_time: t }
+                            };
+                            if orule::classify(&rule) == Class::Unstable {
+                                continue;
+                            }
+                            for y0 in [1995i64, 2003] {
+                                let c = RuleCase { rule: rule.clone(), y0, instants: vec![] };
+                                check_enum("rule", &c, st, check_rule)?;
+                                st.class("year_edge_corner_rules");
+                            }
+                        }
+                    }
+                }
+            }
+            Ok(())
+        });
+        out.absorb_all(rs);
+        if out.failure.is_some() {
+            return out;
+        }
+    }
     // proptest
     let strat = (gens::arb_rule(), 1600i64..2400, prop_oneof![8 => Just(0i64), 1 => -5368708i64..5368708]).prop_map(|(cr, y, k): (ClassedRule, i64, i64)| RuleCase { rule: cr.rule, y0: y + 400 * k, instants: vec![] });
     let cases = ctx.tier.pick(2_500u32, 40_000u32);
